@@ -68,9 +68,9 @@ def parse_tlc(out):
     m = re.search(r"Invariant (\S+) is violated", out)
     if m:
         r["violated"] = m.group(1)
-    m = re.search(r"Temporal properties were violated", out)
+    m = re.search(r"Temporal propert(?:y (\S+) was|ies were) violated", out)
     if m:
-        r["violated"] = r["violated"] or "temporal"
+        r["violated"] = r["violated"] or (m.group(1) or "temporal")
     m = re.search(r"Action property (\S+) is violated", out)
     if m:
         r["violated"] = m.group(1)
@@ -92,7 +92,7 @@ def tlc(module, cfg=None, env=None, workers=4, timeout=600, extra=None, jvm=None
     """run TLC on spec/<module>.tla; returns (parsed, raw output)"""
     cwd = cwd or SPEC
     cfg = cfg or (module + ".cfg")
-    metadir = metadir or os.path.join(WORK, "tlc", "%s-%d-%d" % (module, os.getpid(), int(time.time() * 1000) % 1000000))
+    metadir = metadir or os.path.join(WORK, "tlc", "%s-%d-%d-%s" % (module, os.getpid(), int(time.time() * 1000) % 1000000, os.urandom(4).hex()))
     os.makedirs(os.path.dirname(metadir), exist_ok=True)
     jopts = "-Xss1g " + JVM_LIB + " " + (jvm or "-Xmx4g")
     e = {"JAVA_TOOL_OPTIONS": jopts}
